@@ -710,6 +710,16 @@ type holder struct{ inner }
 
 func (h holder) Fill() { h.inner.init() }
 
+// LOOPSHADOW control: the inner counter hides the outer one
+func spread(coeffs []uint64, n, gap int) {
+	for j := n - 1; j >= 0; j-- {
+		coeffs[j*gap] = coeffs[j]
+		for j := 1; j < gap; j++ {
+			coeffs[j*gap-j] = 0
+		}
+	}
+}
+
 func rnsBad(r *ring.Ring, v uint64) (rns ring.RNSScalar) {
 	rns = make(ring.RNSScalar, r.Level()+1)
 	for i := range rns {
